@@ -618,56 +618,3 @@ Proof.
   - unfold den. cbn [set_pref d_quads]. apply map_ext. intro q. apply den_quad_frame; reflexivity.
 Qed.
 
-Lemma ttl_main : forall (doc : list item) (x : db),
-  wf_doc_ttl doc = true -> db_ok x -> pref_ok (d_pref x) ->
-  next_id (d_dict x) + 4 * N.of_nat (length doc) <= QBIT ->
-  db_ok (load_ttl (render_doc doc) x) /\
-  forall lq, In lq (den (load_ttl (render_doc doc) x)) <-> In lq (den x) \/ In lq (map lq_of4 (quads_from (d_pref x) doc)).
-Proof.
-  induction doc as [|i doc IH]; intros x Hw Hx Hp Hn.
-  - cbn [render_doc map load_ttl fold_left quads_from In]. split; [exact Hx | intro lq; tauto].
-  - unfold wf_doc_ttl in Hw. cbn [forallb] in Hw. apply andb_true_iff in Hw. destruct Hw as [Hi Hw].
-    cbn [length] in Hn. rewrite Nat2N.inj_succ in Hn.
-    unfold load_ttl in *. cbn [render_doc map fold_left quads_from].
-    destruct i as [ws|ws text|pd s p o g|name iri|s pos]; cbn [wf_item_ttl] in Hi; try discriminate.
-    + cbn [render_item]. rewrite ttl_line_blank by exact Hi. cbn [item_quads item_env app].
-      apply IH; [exact Hw | exact Hx | exact Hp | lia].
-    + cbn [render_item]. rewrite ttl_line_comment by exact Hi. cbn [item_quads item_env app].
-      apply IH; [exact Hw | exact Hx | exact Hp | lia].
-    + destruct g as [g|]; [discriminate|].
-      apply andb_true_iff in Hi. destruct Hi as [Hi Ho]. apply andb_true_iff in Hi. destruct Hi as [Hi Hlp].
-      apply andb_true_iff in Hi. destruct Hi as [Hi Hpp]. apply andb_true_iff in Hi. destruct Hi as [Hi Hls].
-      apply andb_true_iff in Hi. destruct Hi as [Hpd Hs]. apply negb_true_iff in Hls.
-      cbn [render_item]. rewrite ttl_line_stmt by assumption.
-      assert (N4 : next_id (d_dict x) + 4 <= QBIT) by lia.
-      destruct (add_lex_spec x (lex (d_pref x) s) (lex (d_pref x) p) (lex (d_pref x) o) None Hx N4) as (K1 & K2 & K3 & K4).
-      set (x' := add_lex x (lex (d_pref x) s) (lex (d_pref x) p) (lex (d_pref x) o) None) in *.
-      assert (Hp' : pref_ok (d_pref x')) by (rewrite K4; exact Hp).
-      assert (Hn' : next_id (d_dict x') + 4 * N.of_nat (length doc) <= QBIT) by lia.
-      destruct (IH x' Hw K1 Hp' Hn') as [J1 J2]. split; [exact J1|].
-      intro lq. rewrite J2, K2, K4. cbn [item_quads item_env]. rewrite map_app, in_app_iff. cbn [map In lq_of4].
-      split.
-      * intros [[H|H]|H]; [left; exact H | right; left; left; symmetry; exact H | right; right; exact H].
-      * intros [H|[[H|[]]|H]]; [left; left; exact H | left; right; symmetry; exact H | right; exact H].
-    + apply andb_true_iff in Hi. destruct Hi as [Hnm Hiri].
-      rewrite render_prefix. rewrite ttl_line_prefix by assumption.
-      destruct (set_pref_ok x ((name, iri) :: d_pref x) Hx) as [K1 K2].
-      assert (Hp' : pref_ok (d_pref (set_pref x ((name, iri) :: d_pref x)))).
-      { cbn [set_pref d_pref]. constructor; [|exact Hp]. cbn [fst snd]. split; [exact Hnm|].
-        destruct iri as [|c r]; [reflexivity|]. cbn [forallb] in Hiri. apply andb_true_iff in Hiri. destruct Hiri as [Hc _].
-        apply n3_char_facts in Hc. destruct Hc as (_ & L & _). cbn [starts_with_c]. exact L. }
-      assert (Hn' : next_id (d_dict (set_pref x ((name, iri) :: d_pref x))) + 4 * N.of_nat (length doc) <= QBIT)
-        by (cbn [set_pref d_dict]; lia).
-      destruct (IH _ Hw K1 Hp' Hn') as [J1 J2]. split; [exact J1|].
-      intro lq. rewrite J2, K2. cbn [item_quads item_env app set_pref d_pref]. reflexivity.
-Qed.
-
-(* with no prefix in scope beforehand the document's quads are `triples_of doc` *)
-Lemma ttl_main_noprefix : forall (doc : list item) (x : db),
-  wf_doc_ttl doc = true -> db_ok x -> d_pref x = [] ->
-  next_id (d_dict x) + 4 * N.of_nat (length doc) <= QBIT ->
-  db_ok (load_ttl (render_doc doc) x) /\
-  forall lq, In lq (den (load_ttl (render_doc doc) x)) <-> In lq (den x) \/ In lq (map lq_of4 (triples_of doc)).
-Proof.
-  intros doc x Hw Hx Hp Hn. unfold triples_of. rewrite <- Hp. apply ttl_main; try assumption. rewrite Hp. constructor.
-Qed.
